@@ -209,7 +209,7 @@ func runC04(c *RuleCtx) {
 			}
 		}
 		// R04.6 synchronous => inline
-		syncA := AtomBool("synchronous", func(v *V) bool { return v.Kind == "var" && v.Name == "synchronous" })
+		syncA := AtomBool("synchronous", isParam(f, 3))
 		n := 0
 		inspectNoLit(f.Body, func(x ast.Node) bool {
 			as, ok := x.(*ast.AssignStmt)
@@ -351,7 +351,7 @@ func runC04(c *RuleCtx) {
 		var reasonExpr ast.Expr
 		inspectNoLit(f.Body, func(x ast.Node) bool {
 			if sw, ok := x.(*ast.SwitchStmt); ok && sw.Tag != nil && reasonExpr == nil {
-				if id, ok := sw.Tag.(*ast.Ident); ok && id.Name == "reason" {
+				if id, ok := sw.Tag.(*ast.Ident); ok && f.Info().Uses[id] != nil && f.Info().Uses[id] == paramObj(f, 1) {
 					reasonExpr = sw.Tag
 				}
 			}
